@@ -102,6 +102,16 @@ class C10(Prop):
             outer = {"name": "g1", "nodes": [gn], "bound": []}
             yield {"kind": "node", "program": [inner, outer], "values": [["x", {"l": [rng.randint(0, 4) for _ in range(rng.randint(2, 3))]}]], "cfg": {},
                    "runner": runner, "k": None, "seed": rng.randint(0, 10**6)}
+        # whatever the seed: the collection to map over is BOUND inside the mapped graph and not supplied from outside
+        for runner in ("sync", "async"):
+            n_items = rng.randint(0, 3)
+            inner = {"name": "g0", "nodes": [gen._fn_node("a", [["x", None], ["c", None]], ["r"], {"b": "tag", "t": "a"})],
+                     "bound": [["x", {"l": [rng.randint(0, 4) for _ in range(n_items)]}]]}
+            ren = [["x", "xs"]] if rng.random() < 0.5 else []
+            gn = {"name": "mapper", "kind": "graph", "inner": 0, "inRen": ren, "outRen": [], "mapOver": ["xs" if ren else "x"], "mapMode": rng.choice(["zip", "product"]),
+                  "errMode": rng.choice(["raise", "continue"])}
+            yield {"kind": "node", "program": [inner, {"name": "g1", "nodes": [gn], "bound": []}], "values": [["c", rng.randint(0, 9)]], "cfg": {},
+                   "runner": runner, "k": None, "seed": rng.randint(0, 10**6)}
         # whatever the seed: the mapped graph NESTS a graph whose function emits a signal: the signal is no output list of the mapping node
         for runner in ("sync", "async"):
             g0 = {"name": "sub", "nodes": [gen._fn_node("a", [["x", None]], ["y"], {"b": "tag", "t": "a"}, emits=["done"])], "bound": []}
@@ -177,6 +187,8 @@ class C10(Prop):
         node = next(n for n in case["program"][-1]["nodes"] if n["kind"] == "graph")
         cur_to_orig = {c: o for o, c in node.get("inRen", [])}
         vals = [[cur_to_orig.get(k, k), v] for k, v in case["values"]]
+        # (a mapped-over collection may be BOUND inside the mapped graph instead of supplied: it is then the collection to map over)
+        vals += [[k, v] for k, v in case["program"][node["inner"]].get("bound", []) if k not in {kk for kk, _ in vals}]
         mo = [cur_to_orig.get(p, p) for p in node["mapOver"]]
         cs = combos(vals, mo, node["mapMode"])
         if cs is None:
